@@ -633,7 +633,7 @@ func c04SemRun(c c04Sem) string {
 func TestC04_Semantic(t *testing.T) {
 	rec := begin(t, "C04", "rapid: chains of 2..6 arithmetic, comparison, boolean, concatenation, membership, conditional and ~> operators over literal and name operands (numbers, strings, booleans, names incl. the words and/or/in as field names, function names); the minimally parenthesised program and the program fully parenthesised according to the statement's precedence (and its single-quoted respelling) must evaluate to the same value / no value / error kind; non-trivial = >= 2 operators of different precedence levels; distinct by program text")
 	defer finish(t, rec)
-	operands := []string{"1", "2", "3", "0", "10", "2.5", `"a"`, `"b"`, `"1"`, "true", "false", "a", "b", "c", "zz", "and", "or", "in", "$sum", "$string", "$count", "null"}
+	operands := []string{"1", "2", "3", "0", "10", "2.5", `"a"`, `"b"`, `"1"`, `"a\\"`, `"\\"`, `"q\"q"`, `"t\tn"`, "true", "false", "a", "b", "c", "zz", "and", "or", "in", "$sum", "$string", "$count", "null"}
 	rapidRun(t, rec, 30000, 300000, func(rt *rapid.T) {
 		n := rapid.IntRange(2, 6).Draw(rt, "nops")
 		c := c04Sem{}
